@@ -53,7 +53,7 @@ finally:
 # 2. demo: with patch (worktree state as left by the agent) and without
 howto = open(os.path.join(mut, 'HOWTO.txt')).read() if os.path.exists(os.path.join(mut, 'HOWTO.txt')) else ''
 meta['howto'] = howto[:1500]
-demos = [f for f in glob.glob(os.path.join(mut, '*')) if not f.endswith(('patch.diff', 'HOWTO.txt', 'notes.txt'))]
+demos = [f for f in glob.glob(os.path.join(mut, '**', '*'), recursive=True) if os.path.isfile(f) and not f.endswith(('patch.diff', 'HOWTO.txt', 'notes.txt'))]
 meta['demo_files'] = [os.path.basename(f) for f in demos]
 out = os.path.join(V, 'seeded', sid); os.makedirs(out, exist_ok=True)
 shutil.copy(patch, out)
